@@ -24,19 +24,34 @@ Leave the worktree's qucumber/ directory clean at the end (git checkout -- qucum
 """
 
 
+ROUND = os.environ.get("BROUND", "B")       # a second round: BROUND=B2 -> worktrees /tmp/wtB2-Cnn, ids B2-Cnn-i
+
+SECOND = """
+This is a SECOND round: other engineers already wrote the changes listed below for this property - write DIFFERENT ones (other functions, other kinds of change). This time prefer changes of these kinds, as long as they are provably equivalent: a defensive copy removed where the library itself created the tensor (never one of a caller's tensor); a copy ADDED; a default argument spelled out or a spelled-out default removed INSIDE the library's own calls; `x.clone()` replaced by an equivalent construction; a private helper that changes the ORDER in which the library reads (not writes) its parameters; float32 constants promoted to float64 where the result is bit-identical; an early `return` for a trivial case that returns exactly what the general path returns; the exception message (not the class) of an internal error reworded; extra private attributes / methods / class-level constants; `isinstance` checks widened to accept what was accepted before through duck typing; local imports moved to module level; a loop over `self.networks` unrolled or rolled up. Use OMP_NUM_THREADS=4 for every python / pytest process you start.
+Earlier changes for this property (do not repeat):
+EARLIER
+"""
+
+
 def main():
     props = {json.loads(l)["id"]: json.loads(l) for l in open("/verif/properties.jsonl")}
-    out = "/tmp/seedpromptsB"
+    out = "/tmp/seedprompts" + ROUND
     os.makedirs(out, exist_ok=True)
     for pid in sys.argv[1:]:
         p = props[pid]
-        wt = "/tmp/wtB-%s" % pid
+        wt = "/tmp/wt%s-%s" % (ROUND, pid)
         if not os.path.isdir(wt):
             r = subprocess.run(["git", "-C", "/repo", "worktree", "add", "--detach", wt, "HEAD"],
                                stdout=subprocess.PIPE, stderr=subprocess.STDOUT, text=True)
             assert r.returncode == 0, r.stdout
         txt = (TEXT.replace("WT", wt).replace("PID", pid).replace("TITLE", p["title"]).replace("STATEMENT", p["statement"])
                .replace("QUANT", p.get("quantifier", {}).get("text", "")).replace("ANCHORS", ", ".join(p.get("anchors", {}).get("files", []))))
+        if ROUND != "B":
+            import glob
+            earlier = []
+            for m in sorted(glob.glob("/verif/benign/B*-%s-*/meta.json" % pid)):
+                earlier.append("  - " + json.load(open(m)).get("summary", "")[:300].replace("\n", " "))
+            txt += SECOND.replace("EARLIER", "\n".join(earlier))
         with open(os.path.join(out, pid + ".txt"), "w") as fh:
             fh.write(txt)
         print(os.path.join(out, pid + ".txt"), wt)
